@@ -118,23 +118,25 @@ Qed.
 (* The follower loop.  A = follower log, Lg = leader's ledger, p = prev_log_index (A and Lg agree on
    the first p entries), es = the segment of Lg after p.  The result is LM and well-indexed again,
    agrees with Lg on the first p + |es| entries, and is either A itself or a prefix of Lg. *)
-Lemma append_entries_LM : forall es A p Lg,
+Lemma append_entries_LM : forall g b es A p Lg,
   WI A -> WI Lg -> LM A -> LM Lg -> (p <= length A)%nat ->
   firstn p A = firstn p Lg ->
   es = firstn (length es) (skipn p Lg) ->
-  let A' := append_entries es A in
+  firstn (N.to_nat b) A = firstn (N.to_nat b) Lg ->      (* the compacted prefix agrees with the leader's ledger *)
+  let A' := append_entries g b es A in
   WI A' /\ LM A' /\ firstn (p + length es) A' = firstn (p + length es) Lg /\
   (p + length es <= length A')%nat /\
   (A' = A \/ exists m, A' = firstn m Lg).
 Proof.
-  induction es as [|e es IH]; intros A p Lg WA WL HA HL Hlen Hag Hes; cbn [append_entries length].
+  induction es as [|e es IH]; intros A p Lg WA WL HA HL Hlen Hag Hes Hb; cbn [append_entries length].
   - rewrite Nat.add_0_r. repeat split; auto.
   - destruct (seg_head _ _ _ _ Hes) as [He [Hes' Hstep]].
     replace (p + S (length es))%nat with (S p + length es)%nat by lia.
     assert (Hidx : eidx e = N.of_nat (S p)) by (apply (WL (S p) e); exact He).
     unfold llen. rewrite Hidx.
     destruct (N.ltb_spec (N.of_nat (length A)) (N.of_nat (S p))) as [Hlt|Hge].
-    + (* follower log ends at p: push *)
+    + (* follower log ends at p: the entry is its direct successor, push *)
+      assert (N.eqb (N.of_nat (S p)) (N.of_nat (length A) + 1) = true) as -> by (apply N.eqb_eq; lia). cbn [orb].
       assert (EA : A ++ [e] = firstn (S p) Lg).
       { rewrite Hstep, <- Hag. f_equal. symmetry. apply firstn_all2. lia. }
       destruct (IH (A ++ [e]) (S p) Lg) as [W' [L' [F' [Len' Sh']]]]; auto.
@@ -142,26 +144,41 @@ Proof.
       * rewrite EA. apply LM_firstn. exact HL.
       * rewrite app_length. cbn. lia.
       * rewrite EA. rewrite firstn_firstn. f_equal. lia.
+      * rewrite EA. rewrite firstn_firstn.
+        replace (firstn (N.to_nat b) Lg) with (firstn (Nat.min (N.to_nat b) (S p)) Lg).
+        -- reflexivity.
+        -- destruct (le_lt_dec (N.to_nat b) (S p)); [f_equal; lia|].
+           (* b > S p = |A|+1: then firstn b A = A and firstn b Lg = A forces |Lg| = p, but entry p+1 of Lg exists *)
+           exfalso. assert (length (firstn (N.to_nat b) A) = length (firstn (N.to_nat b) Lg)) by (rewrite Hb; reflexivity).
+           rewrite !firstn_length in H. apply nth_error_len in He. lia.
       * repeat split; auto. right. destruct Sh' as [->|[m ->]]; [exists (S p); exact EA|eauto].
     + (* follower has an entry at index p+1 *)
-      rewrite nth_entry_ent_at. rewrite Nat2N.id.
-      destruct (ent_at A (S p)) as [x|] eqn:T.
-      2:{ exfalso. cbn in T. apply nth_error_None in T. lia. }
-      destruct (N.eqb_spec (eterm x) (eterm e)) as [Et|Ne].
-      * (* same term: by LM both prefixes are the ledger's, keep A *)
+      unfold lookup. destruct (N.leb_spec (N.of_nat (S p)) b) as [Hcb|Hnb].
+      * (* ... which it has compacted away: skipped; the compacted prefix agrees with the ledger *)
         destruct (IH A (S p) Lg) as [W' [L' [F' [Len' Sh']]]]; auto; try lia.
-        assert (TA : term_at A (S p) = Some (eterm e)) by (unfold term_at; rewrite T; cbn; congruence).
-        assert (TL : term_at Lg (S p) = Some (eterm e)) by (unfold term_at; cbn; rewrite He; reflexivity).
-        eapply LM_agree; eauto.
-      * (* conflict: truncate to p entries and push *)
-        assert (EA : firstn (N.to_nat (N.of_nat (S p) - 1)) A ++ [e] = firstn (S p) Lg).
-        { replace (N.to_nat (N.of_nat (S p) - 1)) with p by lia. rewrite Hstep, <- Hag. reflexivity. }
-        destruct (IH (firstn (N.to_nat (N.of_nat (S p) - 1)) A ++ [e]) (S p) Lg) as [W' [L' [F' [Len' Sh']]]]; auto.
-        -- rewrite EA. apply WI_firstn. exact WL.
-        -- rewrite EA. apply LM_firstn. exact HL.
-        -- rewrite EA. rewrite firstn_length. apply nth_error_len in He. lia.
-        -- rewrite EA. rewrite firstn_firstn. f_equal. lia.
-        -- repeat split; auto. right. destruct Sh' as [->|[m ->]]; [exists (S p); exact EA|eauto].
+        replace (firstn (S p) A) with (firstn (S p) (firstn (N.to_nat b) A)) by (rewrite firstn_firstn; f_equal; lia).
+        rewrite Hb, firstn_firstn. f_equal. lia.
+      * rewrite nth_entry_ent_at. rewrite Nat2N.id.
+        destruct (ent_at A (S p)) as [x|] eqn:T.
+        2:{ exfalso. cbn in T. apply nth_error_None in T. lia. }
+        destruct (N.eqb_spec (eterm x) (eterm e)) as [Et|Ne].
+        -- (* same term: by LM both prefixes are the ledger's, keep A *)
+           destruct (IH A (S p) Lg) as [W' [L' [F' [Len' Sh']]]]; auto; try lia.
+           assert (TA : term_at A (S p) = Some (eterm e)) by (unfold term_at; rewrite T; cbn; congruence).
+           assert (TL : term_at Lg (S p) = Some (eterm e)) by (unfold term_at; cbn; rewrite He; reflexivity).
+           eapply LM_agree; eauto.
+        -- (* conflict: truncate to p entries and push *)
+           assert (EA : firstn (N.to_nat (N.of_nat (S p) - 1)) A ++ [e] = firstn (S p) Lg).
+           { replace (N.to_nat (N.of_nat (S p) - 1)) with p by lia. rewrite Hstep, <- Hag. reflexivity. }
+           destruct (IH (firstn (N.to_nat (N.of_nat (S p) - 1)) A ++ [e]) (S p) Lg) as [W' [L' [F' [Len' Sh']]]]; auto.
+           ++ rewrite EA. apply WI_firstn. exact WL.
+           ++ rewrite EA. apply LM_firstn. exact HL.
+           ++ rewrite EA. rewrite firstn_length. apply nth_error_len in He. lia.
+           ++ rewrite EA. rewrite firstn_firstn. f_equal. lia.
+           ++ rewrite EA. rewrite firstn_firstn.
+              replace (firstn (N.to_nat b) Lg) with (firstn (Nat.min (N.to_nat b) (S p)) Lg); [reflexivity|].
+              f_equal. lia.
+           ++ repeat split; auto. right. destruct Sh' as [->|[m ->]]; [exists (S p); exact EA|eauto].
 Qed.
 
 End LM.
@@ -172,21 +189,23 @@ Variable ledger : N -> list entry.
 
 (* If A and Lg agree on the first m entries (m within A), then after processing a segment of Lg they
    still agree on the first m entries: a conflict can only occur where A and Lg differ. *)
-Lemma append_entries_keep : forall es A p Lg m,
+Lemma append_entries_keep : forall g b es A p Lg m,
   WI A -> WI Lg -> LM ledger A -> LM ledger Lg -> (p <= length A)%nat ->
   firstn p A = firstn p Lg ->
   es = firstn (length es) (skipn p Lg) ->
+  firstn (N.to_nat b) A = firstn (N.to_nat b) Lg ->
   (m <= length A)%nat -> firstn m A = firstn m Lg ->
-  let A' := append_entries es A in
+  let A' := append_entries g b es A in
   (m <= length A')%nat /\ firstn m A' = firstn m Lg.
 Proof.
-  induction es as [|e es IH]; intros A p Lg m WA WL HA HL Hlen Hag Hes Hm Hmag; cbn [append_entries length].
+  induction es as [|e es IH]; intros A p Lg m WA WL HA HL Hlen Hag Hes Hb Hm Hmag; cbn [append_entries length].
   - split; assumption.
   - destruct (seg_head _ _ _ _ Hes) as [He [Hes' Hstep]].
     assert (Hidx : eidx e = N.of_nat (S p)) by (apply (WL (S p) e); exact He).
     unfold llen. rewrite Hidx.
     destruct (N.ltb_spec (N.of_nat (length A)) (N.of_nat (S p))) as [Hlt|Hge].
     + (* push at the end *)
+      assert (N.eqb (N.of_nat (S p)) (N.of_nat (length A) + 1) = true) as -> by (apply N.eqb_eq; lia). cbn [orb].
       assert (EA : A ++ [e] = firstn (S p) Lg).
       { rewrite Hstep, <- Hag. f_equal. symmetry. apply firstn_all2. lia. }
       apply (IH (A ++ [e]) (S p) Lg m); auto.
@@ -194,30 +213,62 @@ Proof.
       * rewrite EA. apply LM_firstn. exact HL.
       * rewrite app_length. cbn. lia.
       * rewrite EA. rewrite firstn_firstn. f_equal. lia.
+      * rewrite EA. rewrite firstn_firstn.
+        destruct (le_lt_dec (N.to_nat b) (S p)); [f_equal; lia|].
+        exfalso. assert (length (firstn (N.to_nat b) A) = length (firstn (N.to_nat b) Lg)) by (rewrite Hb; reflexivity).
+        rewrite !firstn_length in H. apply nth_error_len in He. lia.
       * rewrite app_length. cbn. lia.
       * rewrite firstn_app_le by exact Hm. exact Hmag.
-    + rewrite nth_entry_ent_at. rewrite Nat2N.id.
-      destruct (ent_at A (S p)) as [x|] eqn:T.
-      2:{ exfalso. cbn in T. apply nth_error_None in T. lia. }
-      destruct (N.eqb_spec (eterm x) (eterm e)) as [Et|Ne].
-      * (* same term: keep A; agreement extends to p+1 by Log Matching *)
+    + unfold lookup. destruct (N.leb_spec (N.of_nat (S p)) b) as [Hcb|Hnb].
+      * (* compacted away: skipped *)
         apply (IH A (S p) Lg m); auto; try lia.
-        assert (TA : term_at A (S p) = Some (eterm e)) by (unfold term_at; rewrite T; cbn; congruence).
-        assert (TL : term_at Lg (S p) = Some (eterm e)) by (unfold term_at; cbn; rewrite He; reflexivity).
-        eapply LM_agree; eauto.
-      * (* conflict at p+1: that position lies beyond the agreeing prefix *)
-        assert (Hmp : (m <= p)%nat).
-        { destruct (le_lt_dec m p); [assumption|exfalso].
-          assert (nth_error (firstn m A) p = nth_error (firstn m Lg) p) by (rewrite Hmag; reflexivity).
-          rewrite !nth_error_firstn_lt in H by lia. cbn in T. rewrite T, He in H. injection H as ->. congruence. }
-        assert (EA : firstn (N.to_nat (N.of_nat (S p) - 1)) A ++ [e] = firstn (S p) Lg).
-        { replace (N.to_nat (N.of_nat (S p) - 1)) with p by lia. rewrite Hstep, <- Hag. reflexivity. }
-        apply (IH (firstn (N.to_nat (N.of_nat (S p) - 1)) A ++ [e]) (S p) Lg m); auto.
-        -- rewrite EA. apply WI_firstn. exact WL.
-        -- rewrite EA. apply LM_firstn. exact HL.
-        -- rewrite EA. rewrite firstn_length. apply nth_error_len in He. lia.
-        -- rewrite EA. rewrite firstn_firstn. f_equal. lia.
-        -- rewrite EA. rewrite firstn_length. apply nth_error_len in He. lia.
-        -- rewrite EA. rewrite firstn_firstn. replace (Nat.min m (S p)) with m by lia. reflexivity.
+        replace (firstn (S p) A) with (firstn (S p) (firstn (N.to_nat b) A)) by (rewrite firstn_firstn; f_equal; lia).
+        rewrite Hb, firstn_firstn. f_equal. lia.
+      * rewrite nth_entry_ent_at. rewrite Nat2N.id.
+        destruct (ent_at A (S p)) as [x|] eqn:T.
+        2:{ exfalso. cbn in T. apply nth_error_None in T. lia. }
+        destruct (N.eqb_spec (eterm x) (eterm e)) as [Et|Ne].
+        -- (* same term: keep A; agreement extends to p+1 by Log Matching *)
+           apply (IH A (S p) Lg m); auto; try lia.
+           assert (TA : term_at A (S p) = Some (eterm e)) by (unfold term_at; rewrite T; cbn; congruence).
+           assert (TL : term_at Lg (S p) = Some (eterm e)) by (unfold term_at; cbn; rewrite He; reflexivity).
+           eapply LM_agree; eauto.
+        -- (* conflict at p+1: that position lies beyond the agreeing prefix *)
+           assert (Hmp : (m <= p)%nat).
+           { destruct (le_lt_dec m p); [assumption|exfalso].
+             assert (nth_error (firstn m A) p = nth_error (firstn m Lg) p) by (rewrite Hmag; reflexivity).
+             rewrite !nth_error_firstn_lt in H by lia. cbn in T. rewrite T, He in H. injection H as ->. congruence. }
+           assert (EA : firstn (N.to_nat (N.of_nat (S p) - 1)) A ++ [e] = firstn (S p) Lg).
+           { replace (N.to_nat (N.of_nat (S p) - 1)) with p by lia. rewrite Hstep, <- Hag. reflexivity. }
+           apply (IH (firstn (N.to_nat (N.of_nat (S p) - 1)) A ++ [e]) (S p) Lg m); auto.
+           ++ rewrite EA. apply WI_firstn. exact WL.
+           ++ rewrite EA. apply LM_firstn. exact HL.
+           ++ rewrite EA. rewrite firstn_length. apply nth_error_len in He. lia.
+           ++ rewrite EA. rewrite firstn_firstn. f_equal. lia.
+           ++ rewrite EA. rewrite firstn_firstn. f_equal. lia.
+           ++ rewrite EA. rewrite firstn_length. apply nth_error_len in He. lia.
+           ++ rewrite EA. rewrite firstn_firstn. replace (Nat.min m (S p)) with m by lia. reflexivity.
 Qed.
+
 End Keep.
+
+(* a segment of the ledger sent with a prev the follower holds never leaves a gap: the loop does not stop *)
+Lemma append_ok_seg : forall g b es A p Lg,
+  WI Lg -> (p <= length A)%nat -> es = firstn (length es) (skipn p Lg) ->
+  append_ok g b es A = true.
+Proof.
+  induction es as [|e es IH]; intros A p Lg WL Hlen Hes; cbn [append_ok]; [reflexivity|].
+  destruct (seg_head _ _ _ _ Hes) as [He [Hes' Hstep]].
+  assert (Hidx : eidx e = N.of_nat (S p)) by (apply (WL (S p) e); exact He).
+  unfold llen. rewrite Hidx.
+  destruct (N.ltb_spec (N.of_nat (length A)) (N.of_nat (S p))) as [Hlt|Hge].
+  - assert (N.eqb (N.of_nat (S p)) (N.of_nat (length A) + 1) = true) as -> by (apply N.eqb_eq; lia). cbn [orb].
+    apply (IH (A ++ [e]) (S p) Lg); auto. rewrite app_length. cbn. lia.
+  - destruct (lookup b A (N.of_nat (S p))) as [x|].
+    + destruct (N.eqb (eterm x) (eterm e)).
+      * apply (IH A (S p) Lg); auto. lia.
+      * apply (IH _ (S p) Lg); auto. replace (N.to_nat (N.of_nat (S p) - 1)) with p by lia.
+        rewrite app_length, firstn_length. cbn [length]. lia.
+    + apply (IH A (S p) Lg); auto. lia.
+Qed.
+
